@@ -923,6 +923,16 @@ func runC06(c *ctx) {
 			c.setAdd("families", f.name)
 		}
 	}
+	// the same bracket construct in a rule handle, in another rule and in the rule itself, in every declaration order
+	// (the handle decides the conflicts of expr = expr (..) expr only if it names the production the rule yields)
+	{
+		names, texts := c12OrderTexts()
+		for i := range texts {
+			if c.mineIdx(i) {
+				c06Check(c, "decl-"+names[i], texts[i], 4)
+			}
+		}
+	}
 	r := c.rng("random")
 	n := c.n(2500, 150000)
 	for i := 0; i < n; i++ {
